@@ -10,16 +10,17 @@ import (
 	"github.com/mutagen-io/mutagen/pkg/synchronization"
 	"github.com/mutagen-io/mutagen/pkg/synchronization/core"
 	"github.com/mutagen-io/mutagen/pkg/synchronization/endpoint/local"
+	"github.com/mutagen-io/mutagen/pkg/synchronization/rsync"
 )
 
 // endpointCycle runs one synchronization cycle through two REAL local
 // endpoints (alpha on src, beta on dst): Scan on both, reconcile alpha onto
 // beta, beta.Stage (which uses stageFromRoot for content already present in
 // its root), alpha.Supply into beta's receiver (rsync.Transmit through the
-// Opener), beta.Transition. Between the scans and the staging, mutate() runs
+// Opener), beta.Transition, and at the end beta.Supply for the given paths. Between the scans and the staging, mutate() runs
 // (directories become links to the canary). The Mutagen data directory (caches,
 // staging roots) is dataDir, outside the roots.
-func endpointCycle(src, dst, dataDir string, mutate func(), begin, end func()) (stagingRoot string, problems int, err error) {
+func endpointCycle(src, dst, dataDir string, supply []string, col *collector, mutate func(), begin, end func()) (stagingRoot string, problems int, err error) {
 	os.Setenv("MUTAGEN_DATA_DIRECTORY", dataDir)
 	cfg := &synchronization.Configuration{
 		WatchMode:        synchronization.WatchMode_WatchModeNoWatch,
@@ -68,6 +69,13 @@ func endpointCycle(src, dst, dataDir string, mutate func(), begin, end func()) (
 	_, probs, _, err := beta.Transition(ctx, betaChanges)
 	if err != nil {
 		return stagingRoot, 0, fmt.Errorf("transition: %w", err)
+	}
+	// finally the endpoint under test is asked to SUPPLY files (Endpoint.Supply
+	// is rsync.Transmit on its root), for paths that by now cross links
+	if len(supply) > 0 {
+		if err := beta.Supply(supply, emptySignatures(len(supply)), rsync.NewEncodingReceiver(col)); err != nil {
+			return stagingRoot, len(probs), fmt.Errorf("supply from the endpoint under test: %w", err)
+		}
 	}
 	return stagingRoot, len(probs), nil
 }
